@@ -100,11 +100,43 @@ func (s *vFlatSys) Enabled() []vOp {
 		ops = append(ops, vOp{K: "Remove", A: int(id)}, vOp{K: "Remove", A: int(id), B: 1})
 	}
 	ops = append(ops, vOp{K: "Flush"})
+	// adds that must be refused (zero vector under cosine, wrong dimension, no vector), on
+	// every id whatever its status: unused, live, removed and not yet flushed
+	for _, id := range s.ids {
+		for b := 0; b < 3; b++ {
+			if b == 0 && s.metric != Cosine {
+				continue
+			}
+			ops = append(ops, vOp{K: "BadAdd", A: int(id), B: b})
+		}
+	}
 	return ops
+}
+
+// vBadVector: 0 = all zeros, 1 = one component too many, 2 = no vector at all.
+func vBadVector(dim, which int) []float32 {
+	switch which {
+	case 0:
+		return make([]float32, dim)
+	case 1:
+		v := make([]float32, dim+1)
+		for i := range v {
+			v[i] = 1
+		}
+		return v
+	}
+	return nil
 }
 
 func (s *vFlatSys) Apply(op vOp, hist []vOp, check bool) {
 	switch op.K {
+	case "BadAdd":
+		// the model does not change: a refused add has no effect (in particular it does not
+		// bring a removed vector back)
+		err := s.idx.Add(*NewVectorNodeWithID(uint32(op.A), vBadVector(s.dim, op.B)))
+		if check && err == nil {
+			s.c.Violation("add-result", "invalid-vector-accepted", s.cfg, vHistStrings(append(hist, op)), fmt.Sprintf("Add(%d, invalid vector kind %d) returned nil", op.A, op.B))
+		}
 	case "Add":
 		raw := s.vals[op.B]
 		arg := vCopyVec(raw)
@@ -228,6 +260,15 @@ func init() {
 						vBFS(c, mk(c, metric, d, nids), dd)
 					}})
 				}
+			}
+			// search-object histories (shared explorer, zz_verif_builders.go)
+			for _, metric := range []DistanceKind{Euclidean, L2Squared, Cosine} {
+				bcfg := vVecCfg{Kind: "flat", Metric: metric, Dim: 3}
+				bdepth := 3
+				if tier == "thorough" {
+					bdepth = 4
+				}
+				sh = append(sh, vShard{Name: fmt.Sprintf("builders/flat/%s", metric), Run: func(c *vCtx) { vVecBuilderShard(c, bcfg, bdepth) }})
 			}
 			// size sweep (shared with C02): every n in 1..70 (quick) / 1..300 (thorough)
 			maxN := 70
